@@ -331,6 +331,9 @@ def run_cfg(cfg):
         units = [(rel, []) for rel in sorted(files) if rel.startswith("src/") and rel.endswith(".cpp")]
         # the python-module build (-DPYMODULE) of the driver: the pybind11 block names members of Naunet / NaunetData
         units += [(rel, ["-DPYMODULE", "-DPYMODNAME=pymod"]) for rel, _ in list(units) if rel.endswith("src/naunet.cpp")]
+        # the Debug build of the generated project (CMAKE_BUILD_TYPE=Debug adds -DNAUNET_DEBUG): the same units again
+        if cfg.get("link") and not cfg.get("only"):
+            units += [(rel, ["-DNAUNET_DEBUG"]) for rel, defs_ in list(units) if not defs_]
         std = cxx_standard(files) if cfg["backend"] != "cusparse" else "-std=c++17"  # the language level the generated build prescribes
         for rel, defs in units:
             nfiles += 1
@@ -479,6 +482,7 @@ def run(ctx):
         ctx.absorb(viols)
     ctx.assumptions += [
         "the generated example programs tests/*.cpp are compiled (-fsyntax-only) against the rendered headers of every back-end, with and without -DNAUNET_DEBUG (what the generated CMake project adds for a Debug build)",
+        "the linked configurations are also compiled with -DNAUNET_DEBUG (what the generated CMake project adds for a Debug build)",
         "every unit is compiled at the language level the generated top-level CMakeLists.txt prescribes (CMAKE_CXX_STANDARD / CMAKE_CXX_EXTENSIONS -> -std=c++14 on this tree)",
         "the SUNDIALS/Boost API is a hand-written shim (no SUNDIALS/Boost in the image); a diagnostic naming a shim/libc identifier is a harness error, never a violation",
         "for the full probe networks (quick: every second configuration) the translation units are also compiled and linked with an empty main and trivial CVODE entry points: an undefined or doubly defined symbol of the generated code is a violation (closed program)",
